@@ -177,8 +177,8 @@ theorem holiday_definite_agrees (funcs : List (Str × Fn)) (tdict : List (Str ×
   unfold holidayValues at hmem
   rw [hp, ht] at hmem
   rcases resolveSingle_mem _ _ _ _ v hmem with e | e | e <;> subst e
-  · exact definite_timex_value_date r.future hv
-  · exact definite_timex_value_date r.future hv
+  · exact definiteOK_date_self r.future hv
+  · exact definiteOK_date_self r.future hv
   · simp [definiteOK]
 
 /-- a date outside year 0001 is not mistaken for the sentinel: its `format_date` does not start with `0001-` -/
